@@ -94,6 +94,7 @@ func checkC01(c *Ctx) {
 	// declarations and types: the emitted program has to compile and to have the documented representation
 	c.checkPins(f, "C01.j", c03Pins)
 	r.Import("C15.", "C01.j", "", 40, func() { checkC15(c) })
+	checkListOrder(c, "C01.j", f)
 	// (c) run-time side
 	var sp []termSpec
 	for _, t := range c14Specs["pkg/frt"] {
